@@ -65,6 +65,11 @@ func TestC16(t *testing.T) {
 		}
 		cf := writeCfg(d, pcfg)
 		env := []string{"TMPDIR=" + d}
+		if p.SockDir != "" {
+			sd := filepath.Join(d, p.SockDir)
+			os.MkdirAll(sd, 0o755)
+			env = append(env, "PLUGIN_UNIX_SOCKET_DIR="+sd)
+		}
 		switch p.Versions {
 		case "":
 			env = append(env, "PLUGIN_PROTOCOL_VERSIONS=1,2")
